@@ -61,13 +61,21 @@ def cases(draw, rl):
                          "verbose": draw(st.booleans()), "folder": draw(st.booleans()),
                          "seeds": "spec" if v == 0 and draw(st.booleans()) else
                          draw(st.lists(st.integers(0, 2**31 - 1), min_size=3, max_size=3))})
-    return {"cfg": cfg, "n": n, "variants": variants, "fresh_twin": (not rl) and draw(st.integers(0, 9)) == 0}
+    swap = None
+    if not rl and n >= 2 and draw(st.integers(0, 7)) == 0:
+        # the line-up is replaced mid-way (set_samplers): part of the configuration, identical in every variant
+        swap = {"after": draw(st.integers(1, n - 1)),
+                "lineup": draw(gen.lineup_spec(kinds=["halton", "rseq", "uniform", "pso"], min_len=2, max_len=4, max_bs=3))}
+    return {"cfg": cfg, "n": n, "variants": variants, "swap": swap,
+            "fresh_twin": (not rl) and (swap is not None or draw(st.integers(0, 9)) == 0)}
 
 
-def run_variant(cfg, n, var, folder):
+def run_variant(cfg, n, var, folder, swap=None):
+    from harness.subrun import run_with_swap
+
     cal = calib.build(cfg, seeds=var["seeds"], n_jobs=var["n_jobs"], verbose=var["verbose"], saving_folder=folder)
     with np.errstate(all="ignore"):
-        ret = cal.calibrate(n)
+        ret = run_with_swap(cal, cfg, n, swap)
     return cal, ret
 
 
@@ -81,13 +89,13 @@ def check_pure(ctx: Ctx, case):
     sd = {repr(v["seeds"]) for v in variants}
     nontrivial = len(nj) >= 2 and len(sd) >= 2 and stateful and (rl or n >= len(kinds))
     ctx.count(sub, case, nontrivial, [f"loss={cfg['loss']['kind']}", f"d={len(cfg['space']['lo'])}", f"E={cfg['E']}"] +
-              sorted({f"has-{k}" for k in kinds}))
+              sorted({f"has-{k}" for k in kinds}) + (["set_samplers-midway"] if case.get("swap") else []))
     results, raised = [], []
     for vi, var in enumerate(variants):
         folder = tempfile.mkdtemp(prefix="c01-") if var["folder"] else None
         try:
             with watchdog(240, "calibrate"):
-                cal, ret = run_variant(cfg, n, var, folder)
+                cal, ret = run_variant(cfg, n, var, folder, case.get("swap"))
             results.append((vi, calib.hist_snapshot(cal), ret))
         except Inconclusive:
             raise
@@ -118,9 +126,10 @@ def check_pure(ctx: Ctx, case):
         import sys as _sys
         from harness import subrun
         vi0 = results[0][0]
-        payload = _json.dumps({"cfg": cfg, "n": n, "variant": {"seeds": variants[vi0]["seeds"]}})
+        payload = _json.dumps({"cfg": cfg, "n": n, "variant": {"seeds": variants[vi0]["seeds"]}, "swap": case.get("swap")})
         import os as _os
-        env = dict(_os.environ, PYTHONHASHSEED="7")   # nor on the interpreter's hash seed / object addresses
+        # nor on the interpreter's hash salt / object addresses: a different salt per case (a function of the case only)
+        env = dict(_os.environ, PYTHONHASHSEED=str(1 + cfg["seed"] % 97))
         pr = subprocess.run([_sys.executable, "-m", "harness.subrun"], input=payload, capture_output=True, text=True, timeout=600,
                             env=env)
         line = [l for l in pr.stdout.splitlines() if l.startswith("DIGEST ")]
@@ -132,8 +141,9 @@ def check_pure(ctx: Ctx, case):
                 setattr(c, k, v)
             if subrun.digest(c, results[0][2]) != line[0].split()[1]:
                 ctx.fail("C01/depends-on-process-history", f"variant {vi0} run in this (long-lived) process and the same "
-                         "configuration run in a fresh interpreter produce different histories: the result depends on state "
-                         "left behind by earlier, unrelated calibrations", sub, case)
+                         "configuration run in a fresh interpreter (under another hash salt) produce different histories: the "
+                         "result depends on state left behind by earlier, unrelated calibrations or on the interpreter's hash "
+                         "salt", sub, case)
                 return
             ctx.classes[f"{sub}:fresh-interpreter-twins"] += 1
     if len(results) < 2:
